@@ -552,6 +552,12 @@ def check_c06(exe, tier, seed, verdict):
             nobj = rd["n"]
             hist = []
             absrp = {norm(k.replace(ROOT, root)): v for k, v in paths.items()}     # econf_getPath is absolute also for relative names (C17)
+            if ent.endswith("_rel"):
+                # a relative name is made absolute with realpath(): a main file that is a link to /dev/null reports the
+                # link target; only the highest such main file is ever consulted
+                dn = [f for f in sorted(paths.values()) if f[1] == 0 and t["main"][f[0] - 1] == "devnull"]
+                if dn:
+                    absrp["/dev/null"] = dn[-1]
             for h in range(rd["n"]):
                 d = dumps[h]
                 hist.append({"f": list(absrp.get(norm(d["st"]["path"]), (0, 0))) if d["st"] else [0, 0],
